@@ -6,6 +6,7 @@
 From Coq Require Import ZArith String Ascii List Bool.
 Require Import DS.Model.PyStr DS.Gen.GenNorm DS.Model.GC DS.Proofs.GCNormProofs DS.Proofs.GCProofs DS.Proofs.GCFaultProofs.
 Require Import DS.Model.GCPointer DS.Proofs.GCPointerProofs.
+Require Import DS.Model.Doc DS.Gen.GenDoc DS.Model.GCDoc DS.Proofs.GCDocProofs.
 Import ListNotations.
 Open Scope string_scope.
 Open Scope Z_scope.
@@ -88,6 +89,69 @@ Theorem C07_marker_keep : forall (tp : string) (grace now timeout : Z) (o : orac
 Proof. exact marker_keep. Qed.
 Print Assumptions C07_marker_keep.
 
+(* ---- STRUCTURED damage: the file is still a good JSON / Avro document, but a key is gone, null, or of another type.
+   The readers' demands are the shapes regenerated from the source (Gen/GenDoc.v); `ext` is the one external validation
+   (Schema.__post_init__), any function.
+
+   The metadata document.  collect() works from metadata_manager.refresh() = json.loads + _dict_to_metadata of the current
+   metadata file.  For EVERY document d: either the reader refuses it -- the collection raises having deleted nothing --
+   or the collection runs on the manifest lists of ALL the snapshots the document lists (its snapshots section is a list
+   and every snapshot in it names its manifest list as a string: nothing was defaulted, no snapshot skipped), and then
+   for every fault oracle only unreferenced, unprotected, old files are deleted (C07_fail_closed for those lists). *)
+Theorem C07_metadata_document_fail_closed : forall (ext : string -> jv -> bool) (tp : string) (grace now timeout : Z) (o : oracle) (d : jv) (st : store),
+  wf_store (doc_lists d) st ->
+  match collect_doc ext tp grace now timeout o d st with
+  | DocRefused => doc_deleted (collect_doc ext tp grace now timeout o d st) = []
+  | DocRun r =>
+      (exists items, py_getitem d gen_snapshots_key = Some (JArr items)
+                     /\ Forall2 (fun it l => py_getitem it gen_manifest_list_key = Some (JStr l)) items (doc_lists d))
+      /\ gc_safe_spec now grace timeout (doc_lists d) st r
+  end.
+Proof. exact doc_fail_closed. Qed.
+Print Assumptions C07_metadata_document_fail_closed.
+
+(* A metadata document that no longer says which manifest lists its snapshots have -- the snapshots section is missing,
+   null, of another type (an empty object or string included), or some snapshot carries anything but a string as its
+   manifest list -- is refused, whatever else it contains: it never parses as "a table without snapshots". *)
+Theorem C07_lost_section_refused : forall (ext : string -> jv -> bool) (tp : string) (grace now timeout : Z) (o : oracle) (d : jv) (st : store),
+  section_strings gen_snapshots_key gen_manifest_list_key d = None ->
+  collect_doc ext tp grace now timeout o d st = DocRefused.
+Proof. exact lost_section_refused. Qed.
+Print Assumptions C07_lost_section_refused.
+
+(* Manifest lists and manifests as decoded records.  A reachable list / manifest that is read (as_list / as_manifest of its
+   content class) was accepted record by record and every record contributed exactly the path it carries as a string ... *)
+Theorem C07_readable_records_complete : forall (ext : string -> jv -> bool) (recs : list jv) (ps : list string),
+  (as_list (list_records_content ext recs) = Some ps ->
+     forallb (accepts ext gen_list_record_shape) recs = true
+     /\ Forall2 (fun r p => py_getitem r gen_list_path_key = Some (JStr p)) recs ps)
+  /\ (as_manifest (manifest_records_content ext recs) = Some ps ->
+     forallb (accepts ext gen_manifest_record_shape) recs = true
+     /\ Forall2 (fun r p => exists h, py_getitem r gen_manifest_file_key = Some h /\ py_getitem h gen_manifest_path_key = Some (JStr p)) recs ps).
+Proof. intros ext recs ps. split; [apply list_records_readable|apply manifest_records_readable]. Qed.
+Print Assumptions C07_readable_records_complete.
+
+(* ... and a reachable list / manifest with ONE record the reader refuses (a key it subscripts is gone, an enum value is
+   not a member, ...) or whose path is not a string (null, 0, false, [], {} ...) aborts the collection before the first
+   sweep with nothing deleted -- under any faults. *)
+Theorem C07_structured_damage_aborts : forall (ext : string -> jv -> bool) (tp : string) (grace now timeout : Z) (o : oracle) (snaps : list string)
+    (st : store) (k : key) (ob : obj) (recs : list jv) (r : jv),
+  wf_store snaps st -> lookup k st = Some ob -> In r recs ->
+  (ref_list snaps k /\ body ob = list_records_content ext recs
+     /\ (accepts ext gen_list_record_shape r = false \/ forall s, py_getitem r gen_list_path_key <> Some (JStr s)))
+  \/ (ref_manifest snaps st k /\ body ob = manifest_records_content ext recs
+     /\ (accepts ext gen_manifest_record_shape r = false
+         \/ forall h s, py_getitem r gen_manifest_file_key = Some h -> py_getitem h gen_manifest_path_key <> Some (JStr s))) ->
+  aborted_before_sweep (gc_run tp grace now timeout o snaps st) /\ r_deleted (gc_run tp grace now timeout o snaps st) = [].
+Proof. exact structured_damage_aborts. Qed.
+Print Assumptions C07_structured_damage_aborts.
+
+(* a list record without the key its path comes from is refused by the reader (KeyError) *)
+Theorem C07_list_record_without_path_refused : forall (ext : string -> jv -> bool) (r : jv),
+  py_getitem r gen_list_path_key = None -> accepts ext gen_list_record_shape r = false.
+Proof. exact list_record_without_path_refused. Qed.
+Print Assumptions C07_list_record_without_path_refused.
+
 (* Non-vacuity: the example store of C05 (two retained snapshots, a live transaction, orphans) at table location "data":
    a transient failure on the second manifest list aborts with nothing deleted; a failing marker listing aborts; a failing
    read of the live transaction's marker leaves its file protected while the orphans are still removed; and with the
@@ -150,3 +214,40 @@ Example C07_pointer_nonvacuous :
   /\ collect_resolve [3; 4]%nat PNone all_there PRaise all_there = RAbort
   /\ collect_resolve [3; 4]%nat PNone all_there PNone all_there = RUse 4%nat.
 Proof. repeat split; reflexivity. Qed.
+
+(* Non-vacuity of the document theorems: a metadata document for the example table is accepted and yields the example's
+   manifest lists; the same document with its snapshots section dropped / null / an empty object / an empty string, or with
+   one snapshot's manifest list null / 0, is refused; a list record with a null path makes the list unreadable. *)
+Definition ex_ext (_ : string) (_ : jv) : bool := true.
+Definition ex_snapshot (l : jv) : jv := JObj [("snapshot_id", JNum 1); ("timestamp_ms", JNum 5); ("manifest_list", l)].
+Definition ex_doc_with (snaps : option jv) : jv :=
+  JObj ([("location", JStr "data"); ("table_uuid", JStr "u"); ("format_version", JNum 2); ("last_sequence_number", JNum 2);
+         ("last_updated_ms", JNum 9); ("last_column_id", JNum 1);
+         ("schemas", JArr [JObj [("schema_id", JNum 1); ("fields", JArr [])]]); ("current_schema_id", JNum 1);
+         ("partition_specs", JArr [JObj [("spec_id", JNum 0); ("fields", JArr [])]]); ("default_spec_id", JNum 0);
+         ("sort_orders", JArr [JObj [("order_id", JNum 1); ("fields", JArr [])]]); ("default_sort_order_id", JNum 1);
+         ("properties", JObj []); ("current_snapshot_id", JNum 1); ("snapshot_log", JArr []); ("metadata_log", JArr [])]
+        ++ match snaps with Some v => [("snapshots", v)] | None => [] end)%list.
+Definition ex_doc : jv := ex_doc_with (Some (JArr (map (fun l => ex_snapshot (JStr l)) ex_snaps))).
+Definition ex_list_record (p : jv) : jv :=
+  JObj [("manifest_path", p); ("manifest_length", JNum 10); ("partition_spec_id", JNum 0); ("content", JNum 0);
+        ("added_snapshot_id", JNum 1); ("added_data_files_count", JNum 1); ("existing_data_files_count", JNum 0);
+        ("deleted_data_files_count", JNum 0)].
+Example C07_document_nonvacuous :
+  accepts ex_ext gen_metadata_shape ex_doc = true /\ doc_lists ex_doc = ex_snaps /\ ex_snaps <> []
+  /\ (exists r, collect_doc ex_ext "data" 1000 1000000 86400000 no_faults ex_doc ex_st = DocRun r /\ r_out r = Done)
+  /\ accepts ex_ext gen_metadata_shape (ex_doc_with None) = false
+  /\ accepts ex_ext gen_metadata_shape (ex_doc_with (Some JNull)) = false
+  /\ accepts ex_ext gen_metadata_shape (ex_doc_with (Some (JObj []))) = false
+  /\ accepts ex_ext gen_metadata_shape (ex_doc_with (Some (JStr ""))) = false
+  /\ accepts ex_ext gen_metadata_shape (ex_doc_with (Some (JArr [ex_snapshot JNull]))) = false
+  /\ accepts ex_ext gen_metadata_shape (ex_doc_with (Some (JArr [ex_snapshot (JNum 0)]))) = false
+  /\ section_strings gen_snapshots_key gen_manifest_list_key (ex_doc_with None) = None
+  /\ list_records_content ex_ext [ex_list_record (JStr "metadata/manifests/m1.avro")] = CList FAvro ["metadata/manifests/m1.avro"]
+  /\ as_list (list_records_content ex_ext [ex_list_record (JStr "metadata/manifests/m1.avro"); ex_list_record JNull]) = None
+  /\ accepts ex_ext gen_list_record_shape (JObj [("manifest_length", JNum 10)]) = false.
+Proof.
+  split; [vm_compute; reflexivity|]. split; [vm_compute; reflexivity|]. split; [discriminate|].
+  split; [eexists; split; vm_compute; reflexivity|].
+  repeat split; vm_compute; reflexivity.
+Qed.
